@@ -58,6 +58,15 @@ func TestHost(t *testing.T) {
 	serveHost(t)
 }
 
+// TestHost2 is a second host, so that two hosted sub-tests can run at the same time (HostedPair).
+func TestHost2(t *testing.T) {
+	if os.Getenv("VERIF_PROP") == "" {
+		t.Skip("no VERIF_PROP")
+	}
+	t.Parallel()
+	serveHost(t)
+}
+
 func childMain() {
 	flag.Parse() // TestMain runs before the testing flags are parsed; the library reads testing.Short()
 	switch os.Getenv("VERIF_CHILD") {
